@@ -160,6 +160,9 @@ def run_queries(src, queries):
             _ENGINE[0] = None  # the stack of the engine is not unwound after an exception
             db = None
             out[name] = plrun.classify_exception(exc)
+        except BaseException:  # watchdog timeout / interrupt: do not reuse the interrupted engine
+            _ENGINE[0] = None
+            raise
     return out
 
 
@@ -280,6 +283,40 @@ def _finish(case, prob, problems, feats, src):
                    sample={"t1": render(case["t1"]), "t2": render(case["t2"]), "reference": prob.status})
 
 
+def _has_forced_quotes(t):
+    if t[0] == "a":
+        return len(t) > 2 and bool(t[2])
+    if t[0] == "c":
+        return (len(t) > 3 and bool(t[3])) or any(_has_forced_quotes(x) for x in t[2])
+    if t[0] == "l":
+        return any(_has_forced_quotes(x) for x in t[1]) or (t[2] is not None and _has_forced_quotes(t[2]))
+    return False
+
+
+def _unquote(t):
+    """The same term with every optional pair of quotes removed (a and 'a' are the same atom)."""
+    if t[0] == "a":
+        return t[:2]
+    if t[0] == "c":
+        return [t[0], t[1], [_unquote(x) for x in t[2]]]
+    if t[0] == "l":
+        return ["l", [_unquote(x) for x in t[1]], None if t[2] is None else _unquote(t[2])]
+    return t
+
+
+def _quoting_deviation(check, case, outcome):
+    """A failure that disappears when the optional quotes around atoms are removed is reported as the
+    'quoted atom is a different atom' deviation, not as a failure of the unification algorithm."""
+    if outcome.failure is None or not (_has_forced_quotes(case["t1"]) or _has_forced_quotes(case["t2"])):
+        return outcome
+    plain = check({"t1": _unquote(case["t1"]), "t2": _unquote(case["t2"])}, _relabel=False)
+    if plain.failure is None and not plain.inconclusive:
+        f = outcome.failure
+        outcome.failure = Failure("quoted-atom-is-different-atom", f.detail, sig="+".join(
+            sorted(set("quoted-atom-is-different-atom:" + part.split(":", 1)[1] for part in f.sig.split("+")))))
+    return outcome
+
+
 def _constant_deviation(t1, t2, problems, rejudge):
     """If the failures disappear when constants are identified by their unquoted text (ProbLog compares
     'functor/arity' signatures with the quotes stripped: 1 and '1' get the same signature), report them as
@@ -294,7 +331,7 @@ def _constant_deviation(t1, t2, problems, rejudge):
 
 # ------------------------------------------------------------------------------------------------ sub-check: builtin
 
-def check_builtin(case):
+def check_builtin(case, _relabel=True):
     t1j, t2j = case["t1"], case["t2"]
     n = _case_vars(t1j, t2j)
     vs = ",".join("V%d" % i for i in range(n))
@@ -324,12 +361,13 @@ def check_builtin(case):
     prob, problems = evaluate(ru.std_key)
     problems = _constant_deviation(t1, t2, problems, lambda key: evaluate(key)[1])
     feats = _features(prob, "")
-    return _finish(case, prob, problems, feats, src)
+    out = _finish(case, prob, problems, feats, src)
+    return _quoting_deviation(check_builtin, case, out) if _relabel else out
 
 
 # ------------------------------------------------------------------------------------------------ sub-check: head
 
-def check_head(case):
+def check_head(case, _relabel=True):
     t1j, t2j = case["t1"], case["t2"]
     n1 = _case_vars(t1j)
     n2 = _case_vars(t2j)
@@ -379,7 +417,8 @@ def check_head(case):
     prob, problems = evaluate(ru.std_key)
     problems = _constant_deviation(t1, t2, problems, lambda key: evaluate(key)[1])
     feats = _features(prob, "")
-    return _finish(case, prob, problems, feats, src)
+    out = _finish(case, prob, problems, feats, src)
+    return _quoting_deviation(check_head, case, out) if _relabel else out
 
 
 def _judge_plain(route, got, prob, vvars):
@@ -441,7 +480,7 @@ def universes(tier):
     return [("wide", wide), ("deep", deep), ("lists", lists)]
 
 
-QUICK_STRIDE = 11
+QUICK_STRIDE = 16
 
 
 def _seed():
@@ -520,15 +559,88 @@ def _problem_builtin(case):
     return ru.Problem(_norm(case["t1"]), _norm(case["t2"]))
 
 
-KNOWN_CLASSES = {}
+def _problem_head_ext(case):
+    n1 = _case_vars(case["t1"])
+    t1 = ru.rename(_norm(case["t1"]), lambda i: "W%d" % i)
+    wvars = tuple(("v", "W%d" % i) for i in range(n1))
+    uvars = tuple(("v", "U%d" % i) for i in range(n1))
+    return ru.Problem(("c", "h", (t1,) + wvars), ("c", "h", (_norm(case["t2"]),) + uvars))
+
+
+def mgu_needs_dereference(prob):
+    """The mgu is not a flat substitution: in triangular form a binding of a variable to a non-variable term
+    mentions a variable that is itself bound, or that another variable is aliased to (so the bindings have to
+    be dereferenced through each other to get the instance)."""
+    s = prob.mgu
+    if s is None:
+        return False
+    if prob.chain_depth >= 2:
+        return True
+    alias_targets = set(t for t in s.values() if t[0] == "v")
+    for t in s.values():
+        if t[0] != "v" and any(w in alias_targets for w in ru.variables(t)):
+            return True
+    return False
+
+
+def _parallel_direct_occurrence(t1, t2):
+    """Descending both terms in parallel, some variable faces a term that syntactically contains it."""
+    stack = [(t1, t2)]
+    while stack:
+        a, b = stack.pop()
+        if a[0] == "v" and b[0] != "v":
+            if a in ru.variables(b):
+                return True
+        elif b[0] == "v" and a[0] != "v":
+            if b in ru.variables(a):
+                return True
+        elif a[0] == "c" and b[0] == "c" and a[1] == b[1] and len(a[2]) == len(b[2]):
+            stack.extend(zip(a[2], b[2]))
+    return False
+
+
+def cyclic_only_through_bindings(prob):
+    """Occurs-check case in which no variable directly faces a term containing it: the cycle only shows up
+    after dereferencing bindings made earlier in the same unification."""
+    return prob.status == "cyclic" and not _parallel_direct_occurrence(prob.t1, prob.t2)
+
+
+def _mentions_quoted_numeric_atom(case):
+    """Some atom of the pair has the text of a number ('1' vs 1)."""
+    def walk(t):
+        if t[0] == "a":
+            try:
+                float(t[1])
+                return True
+            except ValueError:
+                return False
+        if t[0] == "c":
+            return any(walk(x) for x in t[2])
+        if t[0] == "l":
+            return any(walk(x) for x in t[1]) or (t[2] is not None and walk(t[2]))
+        return False
+    return walk(case["t1"]) or walk(case["t2"])
+
+
+KNOWN_CLASSES = {
+    # =/2 and \=/2 (sub-check builtin)
+    "eq_mgu_needs_dereference": lambda case, failure: mgu_needs_dereference(_problem_builtin(case)),
+    "eq_cyclic_only_through_bindings": lambda case, failure: cyclic_only_through_bindings(_problem_builtin(case)),
+    # head resolution (sub-check head): the problem includes the extra arguments that alias head and call variables
+    "head_mgu_needs_dereference": lambda case, failure: mgu_needs_dereference(_problem_head_ext(case)),
+    "head_cyclic_only_through_bindings": lambda case, failure: cyclic_only_through_bindings(_problem_head_ext(case)),
+    # constants
+    "quoted_atom": lambda case, failure: _has_forced_quotes(case["t1"]) or _has_forced_quotes(case["t2"]),
+    "numeric_atom": lambda case, failure: _mentions_quoted_numeric_atom(case),
+}
 
 SUBCHECKS = [
     SubCheck("builtin", check_builtin, strategy=_pairs, enumerate=enumerate_pairs,
-             budget={"quick": 6000, "thorough": 200000}, timeout={"quick": 10, "thorough": 20},
+             budget={"quick": 4000, "thorough": 150000}, timeout={"quick": 10, "thorough": 20},
              exhaustive="all ordered pairs of terms of the WIDE, DEEP and LISTS universes (see RULE); quick: 1-in-%d "
                         "sample" % QUICK_STRIDE, render=render_case),
     SubCheck("head", check_head, strategy=_pairs, enumerate=enumerate_pairs,
-             budget={"quick": 6000, "thorough": 200000}, timeout={"quick": 10, "thorough": 20},
+             budget={"quick": 4000, "thorough": 150000}, timeout={"quick": 10, "thorough": 20},
              exhaustive="all ordered pairs of terms of the WIDE, DEEP and LISTS universes (see RULE); quick: 1-in-%d "
                         "sample" % QUICK_STRIDE, render=render_case),
 ]
